@@ -127,7 +127,8 @@ def make_case(raw):
     items = []
     for data in ibytes:
         R = tg.BytesR(data)
-        tree = tg.gen_tree(R, info, R.choice([0, 1, 1, 2, 2, 3]), want='object')
+        # (one type in five may have huge array lengths: 2**31-1 .. 2**64; the invalid ones are left out)
+        tree = tg.gen_tree(R, info, R.choice([0, 1, 1, 2, 2, 3]), want='object', exotic=R.chance(1, 5))
         decls = []
         for _ in range(1 + R.below(4)):
             d = gen_decl(R, R.choice([1, 1, 2, 2, 3]))
